@@ -345,10 +345,19 @@ fn c07(src: &str) -> R {
             {
                 // content between the quotes
                 let body = &txt[1..];
-                let (content, closed) = match body.rfind('\'') {
-                    Some(p) if !unterminated || body[p..].len() <= 3 => (&body[..p], true),
-                    _ => (body, false),
-                };
+                // the closing quote is the first quote that is not half of a doubled quote
+                let bb = body.as_bytes();
+                let mut p = 0usize;
+                let mut close: Option<usize> = None;
+                while p < bb.len() {
+                    if bb[p] == b'\'' {
+                        if p + 1 < bb.len() && bb[p + 1] == b'\'' { p += 2; continue; }
+                        close = Some(p);
+                        break;
+                    }
+                    p += 1;
+                }
+                let (content, closed) = match close { Some(p) => (&body[..p], true), None => (body, false) };
                 if closed || !unterminated {
                     let want = content.replace("''", "'");
                     match val(k) {
@@ -362,13 +371,41 @@ fn c07(src: &str) -> R {
                 let content = &txt[1..txt.len() - 2];
                 let digits: String = content.chars().filter(|c| *c != ',').collect();
                 let valid = digits.len() % 2 == 0 && digits.chars().all(|c| c.is_ascii_hexdigit());
-                if let Some(v) = val(k) {
-                    if !valid {
-                        return Err(format!("token {i} {txt:?}: decoded although it is not hex digit pairs (value {v:?})"));
+                if !valid {
+                    // not hex digit pairs: the token is reported as invalid and carries, like any quoted literal,
+                    // its unquoted content when that differs from the text
+                    let want = content.replace("''", "'");
+                    match val(k) {
+                        Some(v) if v != want => return Err(format!("token {i} {txt:?}: decoded although it is not hex digit pairs (value {v:?})")),
+                        None if want != content => return Err(format!("token {i} {txt:?}: no payload although it contains an escape")),
+                        _ => {}
                     }
+                } else if let Some(v) = val(k) {
                     let want: String = (0..digits.len() / 2).map(|j| u8::from_str_radix(&digits[2 * j..2 * j + 2], 16).unwrap() as char).collect();
                     if v != want {
                         return Err(format!("token {i} {txt:?}: decoded {v:?} expected {want:?}"));
+                    }
+                } else if !digits.is_empty() {
+                    return Err(format!("token {i} {txt:?}: hex digit pairs without a decoded payload"));
+                }
+            }
+            T::StringLiteral | T::BitTestingLiteral | T::DateLiteral | T::DateTimeLiteral | T::NameLiteral | T::TimeLiteral | T::HexStringLiteral
+                if txt.starts_with('"') && !unterminated =>
+            {
+                // a plain double-quoted literal: content between the opening quote and the last quote
+                if let Some(p) = txt[1..].rfind('"') {
+                    let content = &txt[1..1 + p];
+                    let digits: String = content.chars().filter(|c| *c != ',').collect();
+                    let hex_ok = k.ty == T::HexStringLiteral && digits.len() % 2 == 0 && digits.chars().all(|c| c.is_ascii_hexdigit());
+                    let want: String = if hex_ok {
+                        (0..digits.len() / 2).map(|j| u8::from_str_radix(&digits[2 * j..2 * j + 2], 16).unwrap() as char).collect()
+                    } else {
+                        content.replace("\"\"", "\"")
+                    };
+                    match val(k) {
+                        Some(v) if v != want => return Err(format!("token {i} {txt:?}: payload {v:?} expected {want:?}")),
+                        None if want != content => return Err(format!("token {i} {txt:?}: no payload although its value {want:?} differs from its text")),
+                        _ => {}
                     }
                 }
             }
@@ -482,7 +519,11 @@ fn c10(src: &str) -> R {
                 }
             }
             T::MacroLabel => {
-                if !(i + 1 < t.len() && t[i + 1].ty == T::COLON && t[i + 1].ch == TokenChannel::HIDDEN) {
+                let mut j = i + 1;
+                while j < t.len() && (t[j].ch == TokenChannel::COMMENT || (t[j].ch == TokenChannel::HIDDEN && t[j].ty == T::WS)) {
+                    j += 1;
+                }
+                if !(j < t.len() && t[j].ty == T::COLON && t[j].ch == TokenChannel::HIDDEN) {
                     return Err(format!("macro label at token {i} not followed by its hidden colon"));
                 }
             }
@@ -598,7 +639,14 @@ fn c14(src: &str) -> R {
     if let Some(rest) = src.strip_prefix("%do ") {
         if let Some(k) = rest.find(" %to ") {
             let head = &rest[..k];
-            if !head.contains('=') && !head.starts_with("%while") && !head.starts_with("%until") && !head.contains(';') {
+            let mut parts = head.split(' ');
+            let (name, start, more) = (parts.next().unwrap_or(""), parts.next().unwrap_or(""), parts.next());
+            let plain_name = {
+                let n = name.strip_prefix('%').or_else(|| name.strip_prefix('&')).unwrap_or(name);
+                !n.is_empty() && n.chars().next().is_some_and(|c| c.is_ascii_alphabetic() || c == '_') && n.chars().all(|c| c.is_ascii_alphanumeric() || c == '_')
+                    && !matches!(name.to_ascii_lowercase().as_str(), "%while" | "%until" | "%to" | "%by")
+            };
+            if plain_name && more.is_none() && !start.is_empty() && start.bytes().all(|b| b.is_ascii_digit()) {
                 let e = r.errors.iter().find(|e| e.error_kind() == ErrorKind::MissingExpectedAssign);
                 match e {
                     None => return Err("iterative %do without `=`: no MissingExpectedAssign reported".into()),
@@ -610,6 +658,81 @@ fn c14(src: &str) -> R {
                     }
                 }
             }
+        }
+    }
+    Ok(())
+}
+
+// ---------------------------------------------------------------- C08
+fn c08(src: &str) -> R {
+    use TokenType as T;
+    let r = lex(src)?;
+    let t = toks(&r.buffer)?;
+    for (i, k) in t.iter().enumerate() {
+        if !matches!(k.ty, T::IntegerLiteral | T::FloatLiteral | T::FloatExponentLiteral) {
+            continue;
+        }
+        // "has no numeric-literal error attached": errors of these kinds are emitted right after their token
+        let attached = r.errors.iter().any(|e| {
+            matches!(e.error_kind(), ErrorKind::InvalidNumericLiteral | ErrorKind::UnterminatedHexNumericLiteral)
+                && e.last_token().map(|x| x.get() as usize) == Some(i)
+        });
+        if attached {
+            continue;
+        }
+        let txt = &src[k.b0..k.b1];
+        if !txt.is_ascii() || txt.is_empty() {
+            return Err(format!("numeric token {i} {txt:?} is not an ASCII literal"));
+        }
+        let lower = txt.to_ascii_lowercase();
+        let (want_ty, want): (T, Payload) = if let Some(h) = lower.strip_suffix('x') {
+            match u64::from_str_radix(h, 16) {
+                Ok(v) => (T::IntegerLiteral, Payload::Integer(v)),
+                Err(_) => continue, // not a plain hex integer: outside what the statement fixes
+            }
+        } else if lower.bytes().all(|b| b.is_ascii_digit()) {
+            match lower.parse::<u64>() {
+                Ok(v) => (T::IntegerLiteral, Payload::Integer(v)),
+                Err(_) => (T::FloatLiteral, Payload::Float(lower.parse::<f64>().map_err(|e| e.to_string())?)),
+            }
+        } else {
+            let v = match lower.parse::<f64>() {
+                Ok(v) => v,
+                Err(_) => continue,
+            };
+            (if lower.contains('e') { T::FloatExponentLiteral } else { T::FloatLiteral }, Payload::Float(v))
+        };
+        let same = match (k.payload, want) {
+            (Payload::Integer(a), Payload::Integer(b)) => a == b,
+            (Payload::Float(a), Payload::Float(b)) => a.to_bits() == b.to_bits(),
+            _ => false,
+        };
+        if k.ty != want_ty || !same {
+            return Err(format!("numeric token {i} {txt:?}: {:?} {:?}, the text denotes {:?} {:?}", k.ty, k.payload, want_ty, want));
+        }
+    }
+    Ok(())
+}
+
+// ---------------------------------------------------------------- C18 (second sentence; needs a macro_sep build)
+fn c18(src: &str) -> R {
+    use TokenType as T;
+    let r = lex(src)?;
+    let t = toks(&r.buffer)?;
+    for (i, k) in t.iter().enumerate() {
+        if k.ty != T::MacroSep {
+            continue;
+        }
+        if k.b0 != k.b1 || k.ch != TokenChannel::DEFAULT || k.payload != Payload::None {
+            return Err(format!("MacroSep at token {i} is not a zero-width default-channel token without payload"));
+        }
+        let prev = t[..i].iter().rev().find(|x| x.ch == TokenChannel::DEFAULT).map(|x| x.ty);
+        if matches!(prev, None | Some(T::SEMI | T::MacroLabel | T::KwmThen | T::KwmElse | T::MacroSep)) {
+            return Err(format!("MacroSep at token {i} stands directly after {prev:?}"));
+        }
+        match t.get(i + 1) {
+            Some(n) if n.ty == T::MacroLabel || format!("{:?}", n.ty).starts_with("Kwm") => {}
+            other => return Err(format!("MacroSep at token {i} is followed by {:?}, not by a macro statement keyword or label", other.map(|x| x.ty))),
         }
     }
     Ok(())
@@ -631,10 +754,12 @@ fn twin_inner(prop: &str, src: &str) -> R {
         "C05" => c05(src),
         "C06" => c06(src),
         "C07" => c07(src),
+        "C08" => c08(src),
         "C09" => c09(src),
         "C10" => c10(src),
         "C11" => c11(src),
         "C14" => c14(src),
+        "C18" => c18(src),
         "C16" => c16(src),
         "C17" => c17(src),
         "C19" => c01(src),
@@ -646,7 +771,9 @@ fn twin_inner(prop: &str, src: &str) -> R {
 fn fragments(prop: &str) -> Vec<&'static str> {
     let mut base = vec!["a", " ", ";", "\n", "(", ")", ",", "=", "\"", "'", "%", "&", "*", "/", "1", ".", "é", "x"];
     let extra: Vec<&'static str> = match prop {
-        "C07" => vec!["%str(", "%%", "''", "\"\"", "%'", "'x", "+f", "%(", "&&", "%nrstr("],
+        "C07" => vec!["%str(", "%%", "''", "\"\"", "%'", "'x", "\"x", "+f", "%(", "&&", "%nrstr(", "41", "0g"],
+        "C08" => vec!["0", "9", "e", "E", "+", "-", "f", "%eval(", "%sysevalf(", "00000000000000000000", "18446744073709551615", "18446744073709551616", "1e5", "0fx", " x", "1.e5"],
+        "C13" | "C18" => vec!["%m(", "%macro ", "%l:", "%if ", "%then ", "%else ", "%do;", "%end;", "%let ", "/*c*/", "%str(", "%eval("],
         "C09" | "C14" => vec!["%do ", "%m", "%to ", "%let ", "%eval(", "%scan(", "%if ", "%then ", "%macro ", "%end"],
         "C10" => vec!["%eval(", "%str(", "%do ", "%scan(", "datalines;", "%m", ":"],
         "C06" | "C11" => vec!["datalines4;", "datalines;", ";;;;", ";;", "data a;", "/*", "*/", "cards;"],
@@ -659,6 +786,28 @@ fn fragments(prop: &str) -> Vec<&'static str> {
     base
 }
 
+/// `\u{XXXX}` in a corpus line stands for that scalar value
+fn unescape_u(l: &str) -> String {
+    let mut out = String::new();
+    let mut rest = l;
+    while let Some(p) = rest.find("\\u{") {
+        out.push_str(&rest[..p]);
+        let tail = &rest[p + 3..];
+        match tail.find('}').and_then(|e| u32::from_str_radix(&tail[..e], 16).ok().and_then(char::from_u32).map(|c| (c, e))) {
+            Some((c, e)) => {
+                out.push(c);
+                rest = &tail[e + 1..];
+            }
+            None => {
+                out.push_str("\\u{");
+                rest = tail;
+            }
+        }
+    }
+    out.push_str(rest);
+    out
+}
+
 fn corpus() -> Vec<String> {
     let dir = std::env::var("REPLAY_CORPUS").unwrap_or_else(|_| concat!(env!("CARGO_MANIFEST_DIR"), "/corpus").to_string());
     let mut v = Vec::new();
@@ -669,7 +818,7 @@ fn corpus() -> Vec<String> {
             if let Ok(t) = std::fs::read_to_string(&f) {
                 for l in t.lines() {
                     if !l.is_empty() {
-                        v.push(l.replace("\\n", "\n"));
+                        v.push(unescape_u(&l.replace("\\n", "\n")));
                     }
                 }
             }
